@@ -63,7 +63,7 @@ func ruleAddRemoveSymmetry(r *Run) {
 			r.missing("method (*state)." + n)
 			continue
 		}
-		for _, w := range e.OwnWrites(fn) {
+		for _, w := range p.regionWrites(e, fn) {
 			if w.Owner == "state" && !strings.HasSuffix(w.Target(), "[]") {
 				add[w.Target()] = true
 			}
@@ -75,7 +75,7 @@ func ruleAddRemoveSymmetry(r *Run) {
 		return
 	}
 	del := map[string]bool{}
-	for _, w := range e.OwnWrites(rm) {
+	for _, w := range p.regionWrites(e, rm) {
 		if w.Kind == "delete" {
 			del[w.Target()] = true
 		}
@@ -101,7 +101,7 @@ func ruleRemoveFilter(r *Run) {
 		"removeHandler can report false after it already modified the state (or report true for an unknown connection)")
 	// (2) keep-filter: the append into the kept list is on the edge `mhd != hd`
 	var keepCmp *ssa.BinOp
-	eachInstr(rm, func(in ssa.Instruction) {
+	p.eachInstrRegion(rm, func(_ *ssa.Function, in ssa.Instruction) {
 		bo, ok := in.(*ssa.BinOp)
 		if !ok || (bo.Op != token.NEQ && bo.Op != token.EQL) {
 			return
@@ -115,7 +115,7 @@ func ruleRemoveFilter(r *Run) {
 	} else {
 		// the append of the compared method-handler happens on the "different" edge
 		good := false
-		eachInstr(rm, func(in ssa.Instruction) {
+		p.eachInstrRegion(rm, func(_ *ssa.Function, in ssa.Instruction) {
 			c, ok := in.(*ssa.Call)
 			if !ok || calleeName(c) != "builtin.append" {
 				return
@@ -176,7 +176,7 @@ func ruleRemoveFilter(r *Run) {
 	}
 	// (3) delete on the empty edge; write-back otherwise
 	var del, upd ssa.Instruction
-	for _, w := range e.OwnWrites(rm) {
+	for _, w := range p.regionWrites(e, rm) {
 		if w.Target() == "state.handlers" {
 			switch w.Kind {
 			case "delete":
